@@ -844,7 +844,6 @@ pub open spec fn gp_mulHs_entry(c: GenPowerCone<F>, x: Seq<F>, i: int) -> F {
 }
 // the trial point q + a*dq as `work.waxpby(1, q, a, dq)` forms it
 pub open spec fn shifted(q: Seq<F>, dq: Seq<F>, a: F) -> Seq<F> { Seq::new(q.len(), |i: int| f_add(f_mul(f_one(), q[i]), f_mul(a, dq[i]))) }
-pub uninterp spec fn gp_barrier_primal(al: Seq<F>, s: Seq<F>) -> F;
 pub uninterp spec fn gp_barrier_dual(al: Seq<F>, z: Seq<F>) -> F;
 // everything but the two scratch vectors is the same
 pub open spec fn gp_same_but_scratch(c1: GenPowerCone<F>, c0: GenPowerCone<F>) -> bool {
@@ -927,10 +926,20 @@ impl GenPowerCone<F> {
             final(self).data.z@ == old(self).data.z@, final(self).data.mu == old(self).data.mu, final(self).data.psi == old(self).data.psi,
             final(self).data.work@ == old(self).data.work@, final(self).data.work_pb@ == old(self).data.work_pb@,
     { unimplemented!() }
-    #[verifier::external_body] pub fn barrier_primal(&mut self, s: &[F]) -> (r: F)
-        requires gp_wf0(*old(self)), s@.len() == gp_dim(*old(self)),
-        ensures r == gp_barrier_primal(old(self).alpha@, s@), gp_same_but_scratch(*final(self), *old(self)), final(self).data.work@ == old(self).data.work@,
+    // the whole gradient_primal: ASSUMED to be its verified tail slice (gradient_primal_tail below) run with phi = gp_phi_spec
+    #[verifier::external_body] pub fn gradient_primal(&self, g: &mut [F], s: &[F])
+        requires old(g)@.len() == gp_dim(*self), s@.len() == gp_dim(*self),
+        ensures final(g)@ == gp_gradient_primal(self.alpha@, self.data.psi, s@),
     { unimplemented!() }
+//@fn file=src/solver/core/cones/genpowcone.rs in="NonsymmetricCone<T> for GenPowerCone<T>" name=barrier_primal rules=R1,R2 ret=r
+//@contract
+    requires gp_wf0(*old(self)), s@.len() == gp_dim(*old(self)),
+        old(self).alpha@.len() < usize::MAX,      // degree() = dim1 + 1
+    ensures r == gp_barrier_primal(old(self).alpha@, old(self).data.psi, s@), gp_same_but_scratch(*final(self), *old(self)),
+        final(self).data.work@ == old(self).data.work@,
+//@after "g.negate();"
+        proof { assert(g@ =~= seq_neg(gp_gradient_primal(self.alpha@, self.data.psi, s@))); }
+//@end
     #[verifier::external_body] pub fn barrier_dual(&mut self, z: &[F]) -> (r: F)
         requires z@.len() == gp_dim(*old(self)),
         ensures r == gp_barrier_dual(old(self).alpha@, z@), *final(self) == *old(self),
@@ -1008,12 +1017,66 @@ F
 //@fn file=src/solver/core/cones/genpowcone.rs in="Cone<T> for GenPowerCone<T>" name=compute_barrier rules=R1,R2 ret=r
 //@contract
     requires gp_wf(*old(self)), z@.len() == gp_dim(*old(self)), s@.len() == gp_dim(*old(self)), dz@.len() == gp_dim(*old(self)), ds@.len() == gp_dim(*old(self)),
+        old(self).alpha@.len() < usize::MAX,      // barrier_primal evaluates degree() = dim1 + 1
     ensures gp_same_but_scratch(*final(self), *old(self)), gp_wf(*final(self)),
-        r == f_add(f_add(f_zero(), gp_barrier_primal(old(self).alpha@, shifted(s@, ds@, alpha))), gp_barrier_dual(old(self).alpha@, shifted(z@, dz@, alpha))),
+        r == f_add(f_add(f_zero(), gp_barrier_primal(old(self).alpha@, old(self).data.psi, shifted(s@, ds@, alpha))), gp_barrier_dual(old(self).alpha@, shifted(z@, dz@, alpha))),
 //@after "work.waxpby(F::one(), s, alpha, ds);"
         proof { assert(work@ =~= shifted(s@, ds@, alpha)); }
 //@after "work.waxpby(F::one(), z, alpha, dz);"
         proof { assert(work@ =~= shifted(z@, dz@, alpha)); }
+//@end
+}
+
+// ---- GenPowerCone::gradient_primal (finding F9: the tail of the gradient was scaled from the stored vector data.r instead of the tail of s)
+// STATEMENT SLICE: from `let (p, r) = s.split_at(dim1);` to the end of the function, under a hand-written header that takes the three
+// locals computed before it as parameters (dim1 = self.dim1(), data = &self.data, phi).  DROPPED from the function: the zip / fold that
+// computes the unscaled phi (closure with a `-> T`-less tuple pattern inside fold; phi only feeds the Newton iteration).
+// `_newton_raphson_genpowcone` is an ASSUMED stand-in: its value is the uninterpreted gp_g1_spec of exactly its arguments.
+pub uninterp spec fn gp_g1_spec(norm_r: F, p: Seq<F>, phi: F, al: Seq<F>, psi: F) -> F;
+#[verifier::external_body]
+fn _newton_raphson_genpowcone(norm_r: F, p: &[F], phi: F, alpha: &[F], psi: F) -> (r: F)
+    ensures r == gp_g1_spec(norm_r, p@, phi, alpha@, psi),
+{ unimplemented!() }
+// the documented primal gradient (conjugate gradient of the generalised power cone) at s = (p, r), p = s[..dim1], r = s[dim1..]:
+//   |r| > eps:  g_r = (g1 / |r|) * r,  g_p[i] = -(1 + alpha_i + alpha_i * g1 * |r|) / p_i,  g1 from the Newton iteration;
+//   otherwise:  g_r = 0,               g_p[i] = -(1 + alpha_i) / p_i
+pub open spec fn gp_gradient_primal_entry(al: Seq<F>, psi: F, s: Seq<F>, phi: F, i: int) -> F {
+    let dim1 = al.len() as int;
+    let nr = vm_norm(s.subrange(dim1, s.len() as int));
+    let g1 = gp_g1_spec(nr, s.subrange(0, dim1), phi, al, psi);
+    if f_lt(f_eps(), nr) {
+        if i < dim1 { f_div(f_neg(f_add(f_add(f_one(), al[i]), f_mul(f_mul(al[i], g1), nr))), s[i]) }
+        else { f_mul(f_div(g1, nr), s[i]) }      // the TAIL OF s, no field of the cone
+    } else {
+        if i < dim1 { f_div(f_neg(f_add(f_one(), al[i])), s[i]) } else { f_zero() }
+    }
+}
+// the whole function: the slice above with phi = the (DROPPED, uninterpreted) fold  prod_i s_i^(2 alpha_i)
+pub uninterp spec fn gp_phi_spec(al: Seq<F>, s: Seq<F>) -> F;
+pub open spec fn gp_gradient_primal(al: Seq<F>, psi: F, s: Seq<F>) -> Seq<F> {
+    Seq::new(s.len(), |i: int| gp_gradient_primal_entry(al, psi, s, gp_phi_spec(al, s), i))
+}
+pub open spec fn seq_neg(a: Seq<F>) -> Seq<F> { Seq::new(a.len(), |i: int| f_neg(a[i])) }
+// Primal barrier (genpowcone.rs): f(s) = <s, g(s)> - f*(-g(s)) with <s, g(s)> = -(dim1 + 1) = -nu
+pub open spec fn gp_barrier_primal(al: Seq<F>, psi: F, s: Seq<F>) -> F {
+    f_sub(f_neg(gp_barrier_dual(al, seq_neg(gp_gradient_primal(al, psi, s)))), f_from_usize((al.len() + 1) as usize))
+}
+impl GenPowerCone<F> {
+//@fn file=src/solver/core/cones/genpowcone.rs in="NonsymmetricNDCone<T> for GenPowerCone<T>" name=gradient_primal as=gradient_primal_tail rules=R1,R2,zipidx:1=mii;2=mii from="let (p, r) = s.split_at(dim1);" to="if norm_r > T::epsilon()" header="fn gradient_primal_tail<T: FloatT>(&self, g: &mut [T], s: &[T], dim1: usize, data: &GenPowerConeData<T>, phi: T)"
+//@contract
+    requires gp_wf0(*self), dim1 == gp_dim1(*self), *data == *self.data,
+        old(g)@.len() == gp_dim(*self), s@.len() == gp_dim(*self),
+    ensures final(g)@.len() == old(g)@.len(),
+        forall|i: int| 0 <= i < gp_dim(*self) ==> #[trigger] final(g)@[i] == gp_gradient_primal_entry(self.alpha@, self.data.psi, s@, phi, i),
+//@closure 1
+F
+(q: F) ensures q == f_mul(f_div(g1, norm_r), r)
+//@loop 1
+            invariant r14_n1 == dim1, gp@.len() == dim1, p@.len() == dim1, self.alpha@.len() == dim1,
+                forall|k: int| 0 <= k < r14_i1 ==> #[trigger] gp@[k] == f_div(f_neg(f_add(f_add(f_one(), self.alpha@[k]), f_mul(f_mul(self.alpha@[k], g1), norm_r))), p@[k]),
+//@loop 2
+            invariant r14_n2 == dim1, gp@.len() == dim1, p@.len() == dim1, self.alpha@.len() == dim1,
+                forall|k: int| 0 <= k < r14_i2 ==> #[trigger] gp@[k] == f_div(f_neg(f_add(f_one(), self.alpha@[k])), p@[k]),
 //@end
 }
 
